@@ -5,6 +5,7 @@
 -/
 import OrasModel.Proofs.Ref
 import OrasModel.Gen.Regex
+import OrasModel.Gen.Facts
 import OrasModel.Proofs.ReLen
 namespace Oras.Props.C20
 open Oras
@@ -307,6 +308,12 @@ example :
     (parseRef cfg "localhost:5000/a:t@sha256:xyz".toList).isNone ∧
     (parseRef cfg "nohost".toList).isNone := by
   decide
+
+/-- **Source fact** (regenerated): `ValidateRegistry` rejects a registry unless the host that
+    `net/url` parses out of it is the whole string — which is what keeps user-info, queries and
+    fragments out of the registry part (the model takes the verdict as its `validReg`
+    parameter; the specification side of the driver rejects `@`, `?`, `#` on its own). -/
+theorem c20_source_facts : Gen.registryHostMustEqual = true := by decide
 
 /-- **Documented length rules, about the expressions the source compiles**: a tag the
     library accepts has between 1 and 128 characters … -/
